@@ -179,6 +179,10 @@ class FunctionLogger:
                 The returned estimated SD (second function output)
                 must be a finite, positive real-valued scalar (returned SD:{}"""
             raise ValueError(error_message.format(str(fsd)))
+        if self.he_noise_flag:
+            # Same for the SD (an integer-typed SD would wrap around, a
+            # float32 one lose precision, when squared for the merge)
+            fsd = float(np.real(fsd))
 
         # record timer stats
         funtime = timer.get_duration("funtime")
@@ -274,6 +278,10 @@ class FunctionLogger:
                 The returned estimated SD (second function output)
                 must be a finite, positive real-valued scalar (returned SD:{}"""
             raise ValueError(error_message.format(str(fsd)))
+        # Work with floats from here on (as in __call__)
+        fval_orig = float(np.real(fval_orig))
+        if fsd is not None:
+            fsd = float(np.real(fsd))
 
         self.cache_count += 1
         fval, idx = self._record(x_orig, x, fval_orig, fsd, fun_eval_time)
